@@ -6,7 +6,7 @@ from fractions import Fraction as Fr
 
 from sa.algebra import (Und, Rat, Poly, PW, ObjV, Atoms, Evaluator, rat_of, as_pw, ONE, ZERO, rat_sign)
 from sa.core import AnalysisError, unparse, walk_no_nested
-from sa.terms import Expander, T
+from sa.terms import Expander, T, canon
 from . import idx
 from . import kin
 
@@ -371,9 +371,10 @@ def _struct(repo, col):
             g = repo.classes["ParamTransform"].methods[r.name]
             gex = idx.expander(repo, g)
             m = idx._bind(g.node, list(r.args[1:]), r.kw, skip_self=True)
-            if m is not None and len(gex.returns) == 1:
+            gr = gex.merged_return()
+            if m is not None and gr is not None:
                 owner_ex, binds = gex, m
-                r = idx.subst(gex.returns[0], m)
+                r = canon(idx.subst(gr, m))
         ok, shape, detail = False, False, r.short(120) if r is not None else None
         if r is not None and r.op == "mcall" and r.name == "tree_map" and len(r.args) == 4:
             fn_t, a, b = r.args[1], r.args[2], r.args[3]
@@ -384,7 +385,8 @@ def _struct(repo, col):
             elif fn_t.op == "localfn" and fn_t.name in owner_ex.nested:
                 ne = owner_ex.nested[fn_t.name]
                 params_ = ne.fi.params
-                body = idx.subst(ne.returns[0], binds) if len(ne.returns) == 1 else None
+                mr = ne.merged_return()
+                body = canon(idx.subst(mr, binds)) if mr is not None else None
             if params_ is not None and len(params_) == 2 and body is not None:
                 shape = True
                 p0, p1 = params_
